@@ -144,3 +144,142 @@ func VerifC08Resize() {
 	}
 	vAssert(listed == want, "C08/listNodes-exactly-the-retained-epochs")
 }
+
+// ---- C08 for ANY sequence of ticks and resizes (the quantifier names two resizes in one history) ----
+
+// reference model: kept[ep] says whether the map of epoch ep is still in the history; seqN is the count.
+// A tick at epoch e publishes e and drops what is older than the last seqN epochs; an accepted resize to c at
+// epoch e drops what is older than the last c epochs. Nothing that was dropped ever comes back.
+var (
+	kept [24]bool
+	seqN int
+)
+
+func modelTick(e int) {
+	for i := 1; i < 24; i++ {
+		if i == e {
+			kept[i] = true
+		} else if i <= e-seqN {
+			kept[i] = false
+		}
+	}
+}
+
+func modelResize(e, c int) {
+	seqN = c
+	for i := 1; i < 24; i++ {
+		if i <= e-c {
+			kept[i] = false
+		}
+	}
+}
+
+func keptAt(ep int) bool {
+	r := false
+	for i := 1; i < 24; i++ {
+		if ep == i && kept[i] {
+			r = true
+		}
+	}
+	return r
+}
+
+// VerifC08Sequence: params are steps, 0 ends the list: 1..50 = that many ticks; 100+c = a resize to the
+// concrete count c; 200+m = a resize to a SYMBOLIC count 1..m. After every resize the current map is checked,
+// at the end symbolic queries through snapshot / snapshotByEpoch / listNodes are compared with the model.
+// A resize the contract refuses (count <= 0, unchanged count, or a fault) must change nothing.
+func VerifC08Sequence() {
+	emptyAt = 0
+	vDeploy("netmap", false, nil, nil, nil, []any{})
+	node := vAcct("node2")
+	vSign(node, true)
+	vAssume(alpha("addNode", []any{[]any{"addr"}, nil, vKey("node2"), 1}))
+	for i := 0; i < 24; i++ {
+		kept[i] = false
+	}
+	seqN = 10
+	e, cmax := 0, 10
+	tags := []string{"countA", "countB", "countC"}
+	nsym := 0
+	for s := 0; s < 8; s++ {
+		st := vParam(s)
+		if st == 0 {
+			break
+		}
+		if st < 100 {
+			for k := 0; k < st; k++ {
+				e++
+				ticked := publish(e)
+				vAssert(ticked, "C08/accepted-count-can-tick")
+				if !ticked {
+					return
+				}
+				modelTick(e)
+			}
+			continue
+		}
+		c := st - 100
+		if st >= 200 {
+			c = vInt(tags[nsym])
+			nsym++
+			vAssume(c >= 1 && c <= st-200)
+			if st-200 > cmax {
+				cmax = st - 200
+			}
+		} else if c > cmax {
+			cmax = c
+		}
+		accepted := alpha("updateSnapshotCount", c)
+		if accepted {
+			vCover("resize-accepted")
+			modelResize(e, c)
+		} else {
+			vCover("resize-refused")
+		}
+		// whatever happened to the resize, the current map is the one of the current epoch
+		_, r := vRead("netmap", "netmap")
+		nodes := r.([]Node)
+		vAssert((e == 0 && len(nodes) == 0) || (e > 0 && len(nodes) == 1 && int(nodes[0].BLOB[40]) == e), "C08/resize-keeps-the-current-map")
+	}
+
+	d := vInt("d")
+	vAssume(d >= -1 && d <= cmax+1)
+	okq, res := vRead("netmap", "snapshot", d)
+	got, n := -1, 0
+	if okq {
+		nodes := res.([]Node)
+		n = len(nodes)
+		if n == 1 {
+			got = int(nodes[0].BLOB[40])
+		}
+	}
+	ep := e - d
+	if d >= 0 && d < seqN && keptAt(ep) {
+		vCover("retained-snapshot")
+		vAssert(okq && n == 1 && got == ep, "C08/snapshot-recent-map-exact")
+	} else {
+		vAssert(!okq || n == 0, "C08/snapshot-older-map-not-visible")
+	}
+	q := vInt("q")
+	vAssume(q >= -1 && q <= e+1)
+	okq, res = vRead("netmap", "snapshotByEpoch", q)
+	got, n = -1, 0
+	if okq {
+		nodes := res.([]Node)
+		n = len(nodes)
+		if n == 1 {
+			got = int(nodes[0].BLOB[40])
+		}
+	}
+	if q >= 1 && e-q < seqN && keptAt(q) {
+		vCover("retained-by-epoch")
+		vAssert(okq && n == 1 && got == q, "C08/snapshotByEpoch-exact")
+	} else {
+		vAssert(!okq || n == 0, "C08/snapshotByEpoch-older-or-future-not-visible")
+	}
+	q2 := vInt("q2")
+	vAssume(q2 >= 0 && q2 <= e+1)
+	_, lr := vRead("netmap", "listNodes", q2)
+	listed := len(lr.([]Node2)) > 0
+	vAssert(listed == (q2 >= 1 && keptAt(q2)), "C08/listNodes-exactly-the-retained-epochs")
+}
